@@ -417,6 +417,18 @@ Proof.
     pose proof (fun c0 => rm_apply_chan _ _ _ _ c0 H1) as Hch. apply rm_apply_spec, rm_spec_tables in H1. destruct H1 as (_ & _ & _ & _ & _ & Hl & _).
     apply Hsoc; [exact Hl | exact Hch | exact Estr | exact Eadd].
   - apply Hsoc; tsimp; [apply length_chans_rm | intros c0; autorewrite with chat; apply rm_sender_chan | apply streams_rm | apply adds_rm].
+  - (* add sender, failed: the call's receiver goes, nothing else is touched *)
+    destruct O as [Icur Istr]. assert (Hme : a2 s sid (a_rule a) c) by (exists a; tauto).
+    destruct (inv_a2 _ _ I _ _ _ Hme) as (_ & _ & _ & _ & Hcur0 & [Hc2 Hclt] & Hnost). split.
+    + intros c' id p Hlt Hcur. tsimp. rewrite chans_set_chan, length_upd in Hlt. autorewrite with chat in *. destruct (Nat.eq_dec c' c) as [->|Hne].
+      * rewrite chan_at_set_same in * by assumption. destruct (Nat.eq_dec id sid) as [->|Hid]; [now rewrite cursor_drop_same in Hcur|].
+        rewrite cursor_drop_other in Hcur by assumption. rewrite tail_drop. destruct (Icur _ _ _ Hlt Hcur) as [Hp Ho]. split; [exact Hp|].
+        destruct Ho as [Ho|(r' & Ha)]; [now left|]. exfalso. apply Hid. eapply (inv_a2_uniq _ _ I); [exact Ha | exact Hme].
+      * rewrite chan_at_set_other in * by assumption. destruct (Icur _ _ _ Hlt Hcur) as [Hp Ho]. split; [exact Hp|].
+        destruct Ho as [Ho|(r' & Ha)]; [now left|]. exfalso. pose proof (inv_a2_uniq _ _ I _ _ _ _ _ _ Ha Hme) as ->.
+        destruct Ha as (a' & Ha' & _ & Hp'). rewrite H in Ha'. inversion Ha'; subst a'. congruence.
+    + intros sid' st' Hl'. tsimp. rewrite chans_set_chan, length_upd. autorewrite with chat. destruct (Istr _ _ Hl') as (Hc' & (p & Hp) & Hn).
+      split; [assumption|]. split; [|assumption]. rewrite chan_at_set_other by (exact (Hnost _ _ Hl')). eauto.
 Qed.
 
 (* ---- a call in A2: its channel is fresh, unregistered, empty, open, and only it has a receiver there ---- *)
@@ -513,6 +525,8 @@ Proof.
   - exfalso. pose proof (rm_apply_frame _ _ _ _ H1) as (_ & _ & Eadd & _). eapply (Hbusy sid0 r0 c0); [|assumption]. eapply a2_ext; [|exact Ha']. tsimp. exact Eadd.
   - exfalso. pose proof (rm_apply_frame _ _ _ _ H1) as (_ & _ & Eadd & _). eapply (Hbusy sid0 r0 c0); [|assumption]. eapply a2_ext; [|exact Ha']. tsimp. exact Eadd.
   - exfalso. eapply (inv_excl _ _ I sid0 r0 c0 r c); [eapply a2_ext; [|exact Ha']; tsimp; apply adds_rm|]. right. eapply nth_error_In; eassumption.
+  - (* add sender, failed: it was the only call in A2 and it is over *)
+    exfalso. match type of Ha' with a2 ?s1 _ _ _ => apply (a2_del s s1 sid sid0 r0 c0 eq_refl) in Ha' end. destruct Ha' as [Ha' Hne]. apply Hne. eapply (inv_a2_uniq _ _ I); [exact Ha' | exists a; eauto].
 Qed.
 
 Lemma closed_rm_apply s r s1 o : Inv s -> rm_apply s r = (s1, o) -> closed_ok s1.
@@ -609,6 +623,7 @@ Proof.
   - exact (closed_rm_apply _ _ _ _ I H1).
   - exact (closed_rm_apply _ _ _ _ I H1).
   - exact (closed_rm_sender s r I).
+  - (* add sender, failed: no senders *) intros k c0 Hin. change (In (k, c0) (senders s)) in Hin. rewrite H2 in Hin. destruct Hin.
 Qed.
 
 End G2.
